@@ -388,9 +388,54 @@ def r7(ctx, facts):
                    "described in this very response are ignored and the rows are decoded against the cache", b.stmt_span(st))
 
 
+def r8(ctx, facts):
+    """what a node announces at RE-preparation is adopted: after a transparent re-prepare the statement presents the new metadata
+    id and decodes with the new columns. The one exception is deliberate - metadata WITH columns is never replaced by metadata
+    without (some statements only get their real metadata with EXECUTE). Every way out of `reprepare` that skips the update, once
+    the guard has looked at the cached column count, is therefore either `ids are equal` or `cached has columns and the
+    response has none` (seed C14-l: `||` for `&&` made it skip whenever the cached metadata has columns)."""
+    from ..util import dj_of, norm_cmps
+    r = ctx.rule("R8", "reprepare skips the metadata update only when the ids are equal or the update would replace columns by none", floor=1)
+    b = facts.one(r"^scylla::network::connection::Connection::reprepare::\{closure#0\}$")
+    dj = dj_of(b, facts)
+    U = [c for bb, c in b.calls() if bb in b.live_blocks and (c.name or "").endswith("update_current_result_metadata")]
+    cc = sorted([c for bb, c in b.calls() if bb in b.live_blocks and (c.name or c.decl or "").split("::")[-1] == "col_count"], key=lambda c: c.bb)
+    if not U or len(cc) != 2:
+        raise AnchorLost("reprepare: update_current_result_metadata / the two col_count() calls not found (%d/%d)" % (len(U), len(cc)))
+    # which col_count is the cached one: its receiver derives from get_current_result_metadata
+    def is_cached(c):
+        _, cs_, _ = backward_slice(b, c.args[0])
+        return any((x.name or "").endswith("get_current_result_metadata") for x in cs_)
+    cur = [c for c in cc if is_cached(c)]
+    resp = [c for c in cc if not is_cached(c)]
+    if len(cur) != 1 or len(resp) != 1:
+        raise AnchorLost("reprepare: cannot tell the cached column count from the response's")
+    # the comparison of the two METADATA ids comes after the guard (the earlier one compares the statement ids)
+    idcmp = [c for bb, c in b.calls() if bb in b.live_blocks and (c.decl or "") in ("core::cmp::PartialEq::ne", "core::cmp::PartialEq::eq")
+             and b.dominates(cur[0].bb, c.bb)]
+    reach = dj.feasible_reach(0, removed_nodes=[u.bb for u in U], with_states=True)
+    bad = None
+    n = 0
+    for e in sorted(set(b.exits) & set(reach)):
+        for st in reach[e] or []:
+            cmps = {(o, x, y): t for o, x, y, t in norm_cmps(st)}
+            looked = any(x == ("call", cur[0].bb) for (o, x, y) in cmps)
+            if not looked:
+                continue           # left before the guard (id mismatch of the statement, response without metadata id, ...)
+            n += 1
+            ids_equal = any(in_set(st.get(("call", c.bb)), {0 if c.decl.endswith("::ne") else 1}) for c in idcmp)
+            cur_has = cmps.get(("Eq", ("call", cur[0].bb), ("const", 0))) == 0
+            resp_none = cmps.get(("Eq", ("call", resp[0].bb), ("const", 0))) == 1
+            if not (ids_equal or (cur_has and resp_none)):
+                bad = st
+    r.instance("update-skipped-only-if-equal-or-destructive", n > 0 and bad is None,
+               "reprepare can return without update_current_result_metadata in a state where the ids are not known to be equal and it is not the case that "
+               "(cached metadata has columns and the response has none): metadata announced at re-preparation is discarded, the next EXECUTE presents the old id", U[0].span)
+
+
 def check(ctx):
     facts = inline_view(ctx.facts("default"))
-    for fn in (r1, r2_r3, r2_batch, r4, r5, r6, r7):
+    for fn in (r1, r2_r3, r2_batch, r4, r5, r6, r7, r8):
         try:
             fn(ctx, facts)
         except AnchorLost as ex:
